@@ -37,3 +37,8 @@ Section PinnedNext.
     let '(mx, mn) := max_min4 (low a * low b) (high a * low b) (low a * high b) (high a * high b) in
     mkAF (Bnext_dn_pinned mn) (Bnext_up_pinned mx).
 End PinnedNext.
+
+(** transform.rs: MulAssign multiplied the stored inverses in the same order as the matrices *)
+From G3 Require Import Model.Vec Model.BBox Model.Transform.
+Definition tr_mul_assign_pinned {K} {NK : Num K} (a b : Tr K) : Tr K :=
+  mkTr (mul4x4 (elements a) (elements b)) (mul4x4 (inv_elements a) (inv_elements b)).
